@@ -218,7 +218,7 @@ func (ch *channel) Receive(ctx async.Context) ([]byte, status.Status) {
 		// Await new message or close
 		select {
 		case <-ctx.Wait():
-			return nil, ctx.Status()
+			return nil, contextStatus(ctx)
 		case <-wait:
 		}
 	}
